@@ -11,8 +11,19 @@ EXPLANATION = (
 )
 
 
+def _apply_writes_box(cr):
+    from bounded import pipeline
+    from bounded.contract_enum import run_contract_enum
+    from contracts import c06
+    pipeline.ensure_repo()
+    args = c06.apply_writes_arg_sets()
+    cr.bounded_check(run_contract_enum, "apply-property-writes-box", c06.apply_writes, args,
+                     f"{len(args)} cases: 3 entity kinds (flag + setter / setter only / bare) x {{signal, inlined comparison x 6 comparators x 3 constants, "
+                     "bundle condition}}: the condition written means enable > 0 and circuit control is on (contract evaluated on the real method)")
+
+
 def run(tier):
     progs = gen.c06_scope(tier)
     return run_e2e_property("C06", tier, EXPLANATION, "DESIGN §4 C06",
                             [("e2e-entity-conditions", progs, "entity prototypes x enable expressions, shared sources, entity outputs")],
-                            contract_modules=["contracts.c06"])
+                            contract_modules=["contracts.c06"], extra=_apply_writes_box)
